@@ -315,7 +315,34 @@ func TestCheck(t *testing.T) {
 			return
 		}
 		rounds := 1 + r.Intn(3)
+		lateNI := i%3 == 1
+		if lateNI {
+			rounds = 2 + r.Intn(2)
+		}
 		for round := 0; round < rounds && len(probs) == 0; round++ {
+			if lateNI && round == 1 {
+				// a network instance created at run time, after requests for "all instances"
+				// (a Get and at least one Flush) have been served: it must be flushed like the others
+				if _, err, _ := drv.Get(srv, &spb.GetRequest{Aft: spb.AFTType_ALL, NetworkInstance: &spb.GetRequest_All{All: &spb.Empty{}}}, 0); err != nil {
+					probs = append(probs, fmt.Sprintf("get-error-on-valid-request|Get(all, ALL): %v", err))
+				}
+				if _, err, _ := drv.Flush(srv, &spb.FlushRequest{NetworkInstance: &spb.FlushRequest_All{All: &spb.Empty{}}, Election: &spb.FlushRequest_Override{Override: &spb.Empty{}}}); err != nil {
+					probs = append(probs, fmt.Sprintf("flush-error-but-emptied:%s|Flush(all, override): %v", status.Code(err), err))
+				}
+				x.M.Flush(g.S.NIs)
+				const late = "VRF-LATE"
+				if err := srv.AddNetworkInstance(late); err != nil {
+					run.Fatal(caseID + ": AddNetworkInstance: " + err.Error())
+					return
+				}
+				x.M.NI[late] = map[canon.Key]*model.Entry{}
+				g.S.NIs = append(append([]string{}, g.S.NIs...), late)
+				probs = append(probs, aftermath(run, g, x, 15+r.Intn(20))...)
+				run.Count("network_instances_created_at_run_time", 1)
+				if len(probs) > 0 {
+					break
+				}
+			}
 			req := &spb.FlushRequest{}
 			switch {
 			case learnt == nil && r.Intn(2) == 0:
